@@ -134,6 +134,68 @@ theorem cherrypick_keeps (src : J) (K : String) : ∀ (extra : List (List String
         have ⟨g, o⟩ := cherrypick_keeps src K fs d1 d' hx' h (ensure_isObj he')
         exact ⟨g.trans (ensure_get?_other he' hne), o⟩
 
+theorem extraAvoids_one {K : String} {f : List String} {fs : List (List String)} (hx : ExtraAvoids K (f :: fs)) :
+    ExtraAvoids K [f] := by
+  intro g hg
+  have : g = f := by simpa using hg
+  subst this; exact hx g List.mem_cons_self
+
+/-- the guarded restoring loop (kopf 571b1b2) keeps the value at `K` as well: a skipped field writes nothing. -/
+theorem cherrypickSkip_keeps (src : J) (K : String) : ∀ (extra : List (List String)) (d d' : J),
+    ExtraAvoids K extra → cherrypickSkip src d extra = .ok d' → d.isObj = true →
+    d'.get? K = d.get? K ∧ d'.isObj = true
+  | [], d, d', _, h, ho => by simp [cherrypickSkip] at h; subst h; exact ⟨rfl, ho⟩
+  | f :: fs, d, d', hx, h, ho => by
+    have hx' : ExtraAvoids K fs := fun g hg => hx g (List.mem_cons_of_mem _ hg)
+    simp only [cherrypickSkip] at h
+    cases hc : cherrypick src d [f] with
+    | ok d1 =>
+      rw [hc] at h; simp only [] at h
+      have ⟨g1, o1⟩ := cherrypick_keeps src K [f] d d1 (extraAvoids_one hx) hc ho
+      have ⟨g, o⟩ := cherrypickSkip_keeps src K fs d1 d' hx' h o1
+      exact ⟨g.trans g1, o⟩
+    | error e =>
+      rw [hc] at h
+      cases e <;> simp only [] at h <;> first | exact cherrypickSkip_keeps src K fs d d' hx' h ho | cases h
+
+theorem cherrypickSkip_setTop (src : J) (K : String) (v' : J) : ∀ (extra : List (List String)) (l : Kvs),
+    ExtraAvoids K extra → hasKey K l = true →
+    cherrypickSkip src (.obj (J.insert K v' l)) extra = mapOk (setTop K v') (cherrypickSkip src (.obj l) extra)
+  | [], l, _, _ => by simp [cherrypickSkip, mapOk, setTop]
+  | f :: fs, l, hx, hk => by
+    have hx' : ExtraAvoids K fs := fun g hg => hx g (List.mem_cons_of_mem _ hg)
+    simp only [cherrypickSkip]
+    rw [cherrypick_setTop src K v' [f] l (extraAvoids_one hx) hk]
+    cases hc : cherrypick src (.obj l) [f] with
+    | error e => cases e <;> simp only [mapOk] <;> first | exact cherrypickSkip_setTop src K v' fs l hx' hk | rfl
+    | ok d =>
+      have ⟨g, o⟩ := cherrypick_keeps src K [f] _ d (extraAvoids_one hx) hc rfl
+      cases d with
+      | obj l1 =>
+        simp only [mapOk, setTop]
+        obtain ⟨w, hw⟩ := hasKey_lookup hk
+        have hk1 : hasKey K l1 = true := lookup_some_hasKey (v := w) (by simpa [get?, hw] using g)
+        exact cherrypickSkip_setTop src K v' fs l1 hx' hk1
+      | _ => simp [isObj] at o
+
+theorem cherrypickSkip_eraseTop (src : J) (K : String) : ∀ (extra : List (List String)) (l : Kvs),
+    ExtraAvoids K extra →
+    cherrypickSkip src (.obj (erase K l)) extra = mapOk (eraseTop K) (cherrypickSkip src (.obj l) extra)
+  | [], l, _ => by simp [cherrypickSkip, mapOk, eraseTop]
+  | f :: fs, l, hx => by
+    have hx' : ExtraAvoids K fs := fun g hg => hx g (List.mem_cons_of_mem _ hg)
+    simp only [cherrypickSkip]
+    rw [cherrypick_eraseTop src K [f] l (extraAvoids_one hx)]
+    cases hc : cherrypick src (.obj l) [f] with
+    | error e => cases e <;> simp only [mapOk] <;> first | exact cherrypickSkip_eraseTop src K fs l hx' | rfl
+    | ok d =>
+      have ⟨_, o⟩ := cherrypick_keeps src K [f] _ d (extraAvoids_one hx) hc rfl
+      cases d with
+      | obj l1 =>
+        simp only [mapOk, eraseTop]
+        exact cherrypickSkip_eraseTop src K fs l1 hx'
+      | _ => simp [isObj] at o
+
 /-! ### assembling the first-write case -/
 
 theorem metaGet_obj (l : Kvs) (name : String) :
@@ -220,19 +282,19 @@ theorem resolveE_MA_absent (hm : lookup "metadata" kvs = some (.obj m)) (ha : lo
 theorem tail_caseA (ig extra : List (List String)) (src : J) {dk cm : Kvs}
     (hmd : lookup "metadata" dk = some (.obj cm)) (hca : lookup "annotations" cm = none)
     (hx : ExtraAvoids "metadata" extra) :
-    (match cherrypick src (annShape dk cm (.obj [])) extra with
+    (match cherrypickSkip src (annShape dk cm (.obj [])) extra with
       | .error e => .error e
       | .ok e3 => if !metaOK e3 then .error .unmodelled else ignoreFields (removeEmptyStanzas e3) ig) =
-    (match cherrypick src (.obj dk) extra with
+    (match cherrypickSkip src (.obj dk) extra with
       | .error e => (.error e : Except Err J)
       | .ok e3 => if !metaOK e3 then .error .unmodelled else ignoreFields (removeEmptyStanzas e3) ig) := by
   have hk : hasKey "metadata" dk = true := lookup_some_hasKey hmd
   simp only [annShape]
-  rw [cherrypick_setTop src "metadata" _ extra dk hx hk]
-  cases hc : cherrypick src (.obj dk) extra with
+  rw [cherrypickSkip_setTop src "metadata" _ extra dk hx hk]
+  cases hc : cherrypickSkip src (.obj dk) extra with
   | error e => rfl
   | ok e3 =>
-    obtain ⟨g, o⟩ := cherrypick_keeps src "metadata" extra _ _ hx hc rfl
+    obtain ⟨g, o⟩ := cherrypickSkip_keeps src "metadata" extra _ _ hx hc rfl
     cases e3 with
     | obj l3 =>
       have hl3 : lookup "metadata" l3 = some (.obj cm) := by simpa [get?, hmd] using g
@@ -255,22 +317,22 @@ theorem tail_caseA (ig extra : List (List String)) (src : J) {dk cm : Kvs}
 /-- … case "essence.metadata does not exist (no labels either)". -/
 theorem tail_caseB (ig extra : List (List String)) (src : J) {dk : Kvs}
     (hmd : lookup "metadata" dk = none) (hx : ExtraAvoids "metadata" extra) :
-    (match cherrypick src (annShape dk [] (.obj [])) extra with
+    (match cherrypickSkip src (annShape dk [] (.obj [])) extra with
       | .error e => .error e
       | .ok e3 => if !metaOK e3 then .error .unmodelled else ignoreFields (removeEmptyStanzas e3) ig) =
-    (match cherrypick src (.obj dk) extra with
+    (match cherrypickSkip src (.obj dk) extra with
       | .error e => (.error e : Except Err J)
       | .ok e3 => if !metaOK e3 then .error .unmodelled else ignoreFields (removeEmptyStanzas e3) ig) := by
   simp only [annShape]
   have hdk : erase "metadata" (J.insert "metadata" (.obj (J.insert "annotations" (.obj []) [])) dk) = dk := by
     rw [erase_insert_same, erase_of_not_hasKey _ ((lookup_none_iff _ _).1 hmd)]
-  have := cherrypick_eraseTop src "metadata" extra (J.insert "metadata" (.obj (J.insert "annotations" (.obj []) [])) dk) hx
+  have := cherrypickSkip_eraseTop src "metadata" extra (J.insert "metadata" (.obj (J.insert "annotations" (.obj []) [])) dk) hx
   rw [hdk] at this
   rw [this]
-  cases hc : cherrypick src (.obj (J.insert "metadata" (.obj (J.insert "annotations" (.obj []) [])) dk)) extra with
+  cases hc : cherrypickSkip src (.obj (J.insert "metadata" (.obj (J.insert "annotations" (.obj []) [])) dk)) extra with
   | error e => rfl
   | ok e3 =>
-    obtain ⟨g, o⟩ := cherrypick_keeps src "metadata" extra _ _ hx hc rfl
+    obtain ⟨g, o⟩ := cherrypickSkip_keeps src "metadata" extra _ _ hx hc rfl
     cases e3 with
     | obj l3 =>
       have hl3 : lookup "metadata" l3 = some (.obj [("annotations", .obj [])]) := by
@@ -312,7 +374,7 @@ theorem baseBuild_firstAnn (ig extra : List (List String))
     simp only [pickStep, resolveE_withAnn_MA, resolveE_MA_absent hm ha]
     have hfil : A'.filter (fun kv => keepAnnotation (markedPrefixes (keys A')) kv.1) = [] :=
       List.filter_eq_nil_iff.2 (fun kv hkv => by simp [hall kv hkv])
-    have hcong := fun dst => cherrypick_congr (.obj (withAnn kvs m A')) (.obj kvs) extra dst
+    have hcong := fun dst => cherrypickSkip_congr (.obj (withAnn kvs m A')) (.obj kvs) extra dst
       (fun f hf => resolveE_withAnn_other (A' := A') hm f (hxo f hf))
     rcases pickStep_ML_shape hd (lookup_metadata_erase4 kvs) with rfl | ⟨lv, rfl⟩
     · have hn := lookup_metadata_erase4 kvs
